@@ -167,8 +167,22 @@ def _apply_unit(repo: str, header: str, body_lines: List[str], tpl_name: str) ->
                     raise ExtractError("bad rw rule in %s/%s: %s" % (tpl_name, uid, d))
                 p, r = rule.split("==>", 1)
                 sections.append(("rw?" if optional else "rw", p.strip(), [r.strip()]))
+            elif d.startswith("lift:"):
+                rule = d.split(":", 1)[1]
+                if "==>" not in rule or "~~>" not in rule:
+                    raise ExtractError("bad lift rule in %s/%s: %s" % (tpl_name, uid, d))
+                p, rest = rule.split("==>", 1)
+                r, fn_txt = rest.split("~~>", 1)
+                cur = ("lift", p.strip(), [r.strip(), fn_txt.strip()])
+                sections.append(cur)
             elif d.startswith("sig:"):
                 sections.append(("sig", d[4:].strip(), []))
+            elif d.startswith("for2while"):
+                m = re.match(r"for2while\s+(\d+)(.*)$", d)
+                if not m:
+                    raise ExtractError("bad for2while in %s/%s: %s" % (tpl_name, uid, d))
+                kvs = _parse_kv(m.group(2))
+                sections.append(("for2while", m.group(1), [kvs.get("seq", "$iter"), kvs.get("elem", "&$s[$i]")]))
             elif d.startswith("ret:"):
                 sections.append(("ret", d[4:].strip(), []))
             elif d.startswith("region"):
@@ -267,6 +281,39 @@ def _apply_unit(repo: str, header: str, body_lines: List[str], tpl_name: str) ->
                 raise ExtractError("%s: rewrite crossed signature/body boundary: %s" % (uid, arg))
             sig, body = whole2.split("\x01", 1)
     for kind, arg, lines in sections:
+        if kind == "for2while":
+            body = rt.for_to_while(body, int(arg), lines[0], lines[1])
+            info.rewrites.append(("for-to-while loop %s: seq=%s elem=%s" % (arg, lines[0], lines[1]), 1))
+    lifted: List[str] = []
+    for kind, arg, lines in sections:
+        if kind == "lift":
+            ms = rt.find_matches(body, arg)
+            if not ms:
+                raise ExtractError("%s: closure-lift pattern not found in %s (%s): %s" % (uid, info.item, info.file, arg))
+            fn_txt = lines[1] + "\n" + "\n".join(lines[2:])
+            for k, m in enumerate(ms):
+                t = fn_txt
+                for cname in sorted(m.caps, key=len, reverse=True):
+                    t = t.replace("$" + cname, m.caps[cname])
+                if len(ms) > 1:
+                    t = t.replace("$#", str(k + 1))
+                else:
+                    t = t.replace("$#", "")
+                lifted.append(t)
+            if len(ms) > 1 and "$#" in lines[0]:
+                # number the call sites in order
+                out_b, last = [], 0
+                for k, m in enumerate(ms):
+                    r = lines[0].replace("$#", str(k + 1))
+                    for cname in sorted(m.caps, key=len, reverse=True):
+                        r = r.replace("$" + cname, m.caps[cname])
+                    out_b.append(body[last:m.start]); out_b.append(r); last = m.end
+                out_b.append(body[last:])
+                body = "".join(out_b)
+            else:
+                body, _n = rt.rewrite(body, arg, lines[0].replace("$#", ""), nested=False)
+            info.rewrites.append(("closure-lift: " + arg + " ==> " + lines[0], len(ms)))
+    for kind, arg, lines in sections:
         if kind == "ret":
             sig = _wrap_ret(sig, arg)
 
@@ -294,6 +341,8 @@ def _apply_unit(repo: str, header: str, body_lines: List[str], tpl_name: str) ->
         body = body[:off] + txt + body[off:]
     spec = "\n".join("\n".join(l) for k, a, l in sections if k == "spec")
     out = sig + "\n" + spec + ("\n" if spec else "") + body + "\n"
+    if lifted:
+        out += "\n" + "\n".join(lifted) + "\n"
     return out, info
 
 
